@@ -152,4 +152,4 @@ def hole_instances(seeds, replace=(0, 1)):
 def obligation(oid: str, pre: str, suf: str, k: int, mode: str, timeout: float, **extra):
     params = {"prefix": pre, "suffix": suf, "k": k, "mode": mode}
     params.update(extra)
-    return {"id": oid, "module": "vtools.holes", "func": "h_hole", "params": params, "timeout": timeout}
+    return {"id": oid, "module": "vtools.holes", "func": "h_hole", "params": params, "timeout": timeout, "allow_vacuous": mode in ("accept", "reject", "roundtrip") or "alphabet" in extra}
